@@ -389,8 +389,11 @@ def source(spec):
 # irispie model
 # ---------------------------------------------------------------------------
 
-def build_model(spec, variant_count=1, solve=True, stds=None):
-    """Simultaneous model with parameters and the harness-computed steady state assigned."""
+def build_model(spec, variant_count=1, solve=True, stds=None, zero_steady=False):
+    """Simultaneous model with parameters and the harness-computed steady state assigned.
+
+    zero_steady: assign the all-zero (log: all-one) steady state - valid for constant-free
+    models, and the only option for the unit-root family where sum_k A_k is singular."""
     import irispie as ir
     m = ir.Simultaneous.from_string(source(spec), linear=not spec["log"])
     if variant_count > 1:
@@ -400,7 +403,10 @@ def build_model(spec, variant_count=1, solve=True, stds=None):
         assign[p["name"]] = p["value"]
     levels = []
     for v in range(variant_count):
-        xs, ys = steady(spec, v)
+        if zero_steady:
+            xs, ys = np.zeros(spec["n"]), np.zeros(len(spec["meas"]))
+        else:
+            xs, ys = steady(spec, v)
         if xs is None:
             raise ValueError("singular steady state")
         levels.append((xs, ys))
